@@ -9,6 +9,7 @@ CONSTANTS
     TickSteps = {1, 2}
     NProofs = 3
     TsChoices = {0, 1, 3, 5, 6}
+    FarChoices = {"near", "fut10", "futmax", "past12"}
     NonceIds = {1, 2, 3}
     ShareNonces = TRUE
     KidChoices = {"k1"}
